@@ -256,8 +256,15 @@ class StreamReaderStub:
         for exc in (rpc.asyncio.IncompleteReadError, ConnectionError):
             f = c.fresh(c.fresh_name("readexactly." + exc.__name__), BOOL)
             if c.fork(f):
+                # the peer is gone: at a message boundary or anywhere inside a header or body (C16: "disconnects ... at
+                # any byte offset"); IncompleteReadError carries the bytes received so far, fewer than asked for
+                c.event("reader.gone", exc=exc.__name__)
                 if exc is rpc.asyncio.IncompleteReadError:
-                    raise exc(b"", None)
+                    partial = c.fresh(c.fresh_name("readexactly.partial"), STR)
+                    c.pc.append(tm.Lt(tm.Len(partial), I(n)))
+                    err = exc(b"", None)  # (the constructor formats len(partial) into its message)
+                    err.partial = wrap_bytes(partial)
+                    raise err
                 raise exc("peer gone [contract of StreamReader.readexactly]")
         c.pc.append(tm.Le(tm.Add(g.start, I(n)), tm.Len(g.total)))
         r = wrap_bytes(tm.Substr(g.total, g.start, I(n)))
@@ -268,8 +275,11 @@ class StreamReaderStub:
 
 def _recv_stream_post(reader, result, old):
     r = sym.resolve(result) if isinstance(result, sym.SymOpt) else result
+    gone = _peer_gone()
     if r is None:
-        return True
+        return gone  # "no message" is reported only for a peer that is gone
+    if gone:
+        return False  # and a peer that is gone is reported as such, wherever in a message the stream ended
     g0 = old_ghost(old)
     cid, size, body, end = _msg_at(g0.total, g0.start)
     r_id, r_body = r
@@ -283,6 +293,16 @@ def _recv_stream_post(reader, result, old):
 
 def old_ghost(old):
     return old.reader.ghost
+
+
+def _peer_gone() -> bool:
+    return any(e.kind == "reader.gone" for e in cur().trace)
+
+
+def _rpc_error_only_for_a_malformed_header(reader):
+    """A peer that vanishes -- between two messages or in the middle of one -- is not an error of the loop that reads
+    (C16: never crashes the director): RPCError is left for a complete header that is not the header of a message."""
+    return not _peer_gone()
 
 
 class _StreamSnap:
@@ -299,9 +319,49 @@ StreamReaderStub.__snapshot__ = lambda self: type("Snap", (), dict(ghost=self.gh
 @contract("stepup/core/rpc.py::_recv_stream_message", props=["C16"])
 class recv_stream_message:
     args = dict(reader=_stream_reader)
-    may_raise = {RPCError: None}
+    may_raise = {RPCError: _rpc_error_only_for_a_malformed_header}
     ensures = _recv_stream_post
     modifies = []
+
+
+from vc.report import replayer  # noqa: E402
+
+
+@replayer("C16/_recv_stream_message/")
+def replay_recv_stream(o):
+    """The counter-model is a read that ends early; its concrete form on the real function: a real asyncio.StreamReader
+    fed with every proper prefix of one encoded message (with and without body), then EOF.  A vanished peer has to be
+    reported as None at every offset, and the complete message has to be returned."""
+    code = (
+        "import asyncio, sys\n"
+        "from stepup.core import rpc\n"
+        "async def one(data):\n"
+        "    r = asyncio.StreamReader()\n"
+        "    r.feed_data(data)\n"
+        "    r.feed_eof()\n"
+        "    return await rpc._recv_stream_message(r)\n"
+        "bad = []\n"
+        "for body in (None, b'hello world'):\n"
+        "    msg = rpc._encode_message(7, body)\n"
+        "    for k in range(len(msg) + 1):\n"
+        "        try:\n"
+        "            got = asyncio.run(one(msg[:k]))\n"
+        "        except Exception as exc:\n"
+        "            bad.append((body, k, repr(exc)))\n"
+        "            continue\n"
+        "        want = (7, body) if k == len(msg) else None\n"
+        "        if got != want:\n"
+        "            bad.append((body, k, repr(got)))\n"
+        "for b in bad[:6]:\n"
+        "    print('body', b[0], 'stream ends after', b[1], 'byte(s):', b[2])\n"
+        "print(len(bad), 'offset(s) misreported')\n"
+        "sys.exit(1 if bad else 0)\n")
+    import subprocess
+
+    r = subprocess.run(["/venv/bin/python", "-c", code], cwd=extract.REPO, capture_output=True, text=True,
+                       env={"PYTHONPATH": extract.REPO, "PATH": "/usr/bin:/bin"})
+    return dict(reproduced=r.returncode == 1, python=code, output=(r.stdout + r.stderr)[-1500:],
+                witness=dict(claim="a stream that ends inside a message is not reported as a vanished peer (None)"))
 
 
 # ---------------------------------------------------------------- pairing: client side
